@@ -77,6 +77,9 @@ func (g *Graph) Exits() []Exit {
 		if !b.Live || len(b.Succs) > 0 {
 			continue
 		}
+		if b.Kind == cfg.KindSelectAfterCase && len(b.Nodes) == 0 {
+			continue // "no case ready" of a select without default: blocks, not an exit
+		}
 		if n := len(b.Nodes); n > 0 {
 			if r, ok := b.Nodes[n-1].(*ast.ReturnStmt); ok {
 				out = append(out, Exit{P: Point{b, n - 1}, Kind: "return", Ret: r})
